@@ -140,6 +140,7 @@ def big_messages(rng, sizes):
 
 class C01(Prop):
     pid = "C01"
+    timeout = 3600
 
     def streams(self, tier, rng):
         n = 400 if tier == "quick" else 4000
@@ -166,7 +167,24 @@ class C01(Prop):
                 big.append(S.d("Dns", x))
         s.append(("big", big))
         if tier == "thorough":
-            s.append(("exhaustive-len-4", enumerate_cases(4, ["DomainName", "Flags", "Type", "Class", "QType", "QClass"])))
+            # every octet string of length 4 as a name (4.3e9 decodes per runner); the flag and code entry points read
+            # two octets only, so longer inputs add nothing there
+            s.append(("exhaustive-len-4-names", enumerate_cases(4, ["DomainName"])))
+            # coverage-guided search (libFuzzer) seeded with the repository's vectors: crash inputs on every entry
+            # point, the corpus it grew (inputs reaching new code) on the message and record entry points
+            import common as C
+            import os
+            wd = os.path.join(C.WORK, "C01-fuzz")
+            os.makedirs(wd, exist_ok=True)
+            crashes, found, log = C.fuzz_inputs(180, wd, S.corpus())
+            self.fuzz_log = "%d crash inputs, corpus grown to %d inputs; %s" % (len(crashes), len(found), log.replace("\n", " ")[-160:])
+            fz = []
+            for b in crashes:
+                fz += [S.d(e, b) for e in ENTRIES]
+            for b in found[:6000]:
+                fz.append(S.d("Dns", b))
+                fz.append(S.d("RR", b))
+            s.append(("coverage-guided", fz))
         return s
 
     def view(self, case, line):
@@ -193,13 +211,14 @@ class C01(Prop):
                 "vectors on every entry point, length-guard inputs (cookie 0..65, address octet counts 0..size+2 x prefixes, "
                 "option/parameter/RDATA lengths), structured valid messages, near-miss and byte-level mutations, mutated "
                 "stand-alone elements, messages up to 65,538 octets; every byte string of length 3 on all nine entry points "
-                "(and of length 4 on the name, flags and code entry points in the thorough tier) through in-process enumeration "
+                "(and of length 4 on the name entry point in the thorough tier) through in-process enumeration "
                 "(A cases: 65,536 inputs each, outcome counts and a digest of the results compared with the model); the harness also clones, compares, formats (Display, "
                 "Debug), queries accessors and re-encodes every accepted value under catch_unwind in a debug build with "
                 "overflow checks; non-trivial = input long enough to get past the first field; distinct by text")
 
     def assumptions(self):
-        return ["abort, stack overflow and OOM are runtime events outside the model; they would surface as a crashed harness shard (reported as a violation)",
+        return ["coverage-guided search (thorough tier): " + getattr(self, "fuzz_log", "not run in this tier"),
+                "abort, stack overflow and OOM are runtime events outside the model; a dying or hanging runner is bisected to the responsible case (ABORT line, reported as the failing input)",
                 "Clone/PartialEq/Display/Debug of decoded values are exercised by the harness (test), not covered by a theorem"]
 
 
